@@ -32,6 +32,10 @@ claimed = {
    text="Stateless model checking of the implementation under a controlled scheduler: 2-3 real goroutines running real Compile/Eval/Register* calls, one at a time, switching only at hooked points (entry of eval() for every node, reflective calls, accesses to callable name/context, ~> argument lists, registries and the registry mutex, modelled as blocking), with every switch a recorded choice; depth-first enumeration of ALL schedules with 0, 1 and 2 preemptions (thorough: 3, plus a three-thread family) over 270 scenarios chosen to collide (same built-in from different Exprs, one shared Expr, full-argument and bare-function calls, Compile against package-level registration with and without prior registration). Oracle per schedule: every Eval returns its solo outcome, Compile sees exactly the registrations that happened before it (logical clock), no deadlock, and a vector-clock happens-before monitor finds no unordered conflicting access on a hooked location.",
    note="Trusted: the hook points (build tag verif) as the scheduling granularity, the lock model of the registry RWMutex, garbage collection disabled during an execution so that addresses identify objects. Word tearing / reordering below hook granularity and unhooked locations are only visible to the auxiliary free-running pass of the same bodies under go build -race (reported as coverage.aux, sampling, never deciding). More than 3 threads or 2 operations per thread are not explored.",
    technique="preemption-bounded exhaustive schedule exploration (stateless DFS) of the real code + vector-clock race monitor", design="§5 C06", engine="E2 cooperative scheduler (mc/sched) driven by E1's chooser"),
+ "C07": dict(
+   text="Bounded exhaustive model checking: ~80 program shapes (every array/object built-in and node type that handles containers, chains, partials, lambdas) x 10 operands, alone and composed to depth 2, on 64 freshly built documents (nulls, empty containers, duplicates, nested arrays, two slices over one backing array, one map reachable through two members, array at the top) each with a registered variable that is separate from / part of the document: after every evaluation, successful or failing, the caller's document and the variable must be deep-equal to their snapshots. Transforms: the full product 9 patterns x 9 updates x 8 deletes x 5 application forms x all documents compared with a reference transform (deep copy, update exactly the selected objects, delete names, error classes), plus patterns that escape the copy ($$, variables) under the frame condition.",
+   note="Trusted: reflect.DeepEqual against an independent deep copy taken before Eval; the reference transform (mc/ref/ext2.go). Struct-typed inputs and documents deeper than the generated ones are not covered; an in-place write beyond a slice's visible length is seen only through the aliased view the generator provides.",
+   technique="explicit enumeration of bounded programs x documents (stateless DFS) with frame-condition oracle and reference transform", design="§5 C07", engine=E1),
 }
 pending_reason = "check not built yet in this session (planned, see DESIGN.md §5)"
 
